@@ -44,7 +44,7 @@ def wh(ci, line):
 
 
 # ---------------------------------------------------------------------------------------------
-def classify(e):
+def classify(e, on_self_store=on_self_store):
     """self-store effect class of an event: 'read' | 'write' | 'remove' | 'clearall' | 'rename' | 'mkdir' | None"""
     k = e.kind
     a = e.args
@@ -108,8 +108,15 @@ def classify(e):
     return None
 
 
-def effects(o):
-    return [(e, classify(e)) for e in o.st.events if classify(e) is not None]
+def effects(o, own=on_self_store):
+    # what a listing of the archive's own location returned lies in that location too (for d in walk(root, ...): rmtree(d))
+    listed = [e.val for e in o.st.events if e.kind == 'LIST' and e.val is not None and e.args and own(e.args[0])]
+    if listed:
+        base = own
+
+        def own(t, base=base, listed=listed):
+            return base(t) or contains_term(t, lambda x: x in listed)
+    return [(e, classify(e, own)) for e in o.st.events if classify(e, own) is not None]
 
 
 def clean_path(o):
@@ -338,6 +345,15 @@ def staging_of(evs):
 def rule_A_TXN(ctx, repo, cache):
     """a single-key SQL operation is one transaction: no commit between two of its DML statements"""
     for ci in archive_classes(repo, ['sqltable_archive[sql]', 'sqltable_archive[!sql]', 'sql_archive[sql]']):
+        # a connection opened in autocommit mode commits every statement on its own
+        auto = None
+        for mname, mfi in ci.methods.items():
+            for n in ast.walk(mfi.node):
+                if isinstance(n, ast.Call) and isinstance(n.func, ast.Attribute) and n.func.attr == 'connect':
+                    for k in n.keywords:
+                        if (k.arg == 'isolation_level' and isinstance(k.value, ast.Constant) and k.value.value is None) or \
+                                (k.arg == 'autocommit' and isinstance(k.value, ast.Constant) and k.value.value is True):
+                            auto = (mname, n.lineno)
         for name in ('__setitem__', '__delitem__', 'pop', 'setdefault'):
             fi, outs, eng = cache.outs(ci, name)
             if fi is None:
@@ -347,12 +363,13 @@ def rule_A_TXN(ctx, repo, cache):
                 evs = o.st.events
                 dml = [i for i, e in enumerate(evs) if e.kind == 'SQL' and e.args[0][1] in ('insert', 'update', 'delete')]
                 for a, b in zip(dml, dml[1:]):
-                    if any(e.kind == 'COMMIT' for e in evs[a + 1:b]):
+                    if auto is not None or any(e.kind == 'COMMIT' for e in evs[a + 1:b]):
                         bad = (o, evs[a], evs[b])
             ctx.ob('A-TXN', '%s.%s' % (ci.label, name), bad is None)
             if bad is not None:
                 o, e1, e2 = bad
                 ctx.fail('A-TXN', mq(ci, name), '%s committed before %s' % (e1.args[0][1], e2.args[0][1]),
+                         ('the connection is opened in autocommit mode (%s, line %d), so ' % auto if auto is not None else '') +
                          '%s.%s commits its %s (%s) and then issues a separate %s (%s): a kill or a concurrent reader between the two transactions sees the key '
                          'with neither its old nor its new value' % (ci.label, name, e1.args[0][1], wh(ci, e1.line), e2.args[0][1], wh(ci, e2.line)),
                          wh(ci, e2.line), render_path(o))
@@ -1278,8 +1295,14 @@ def rule_A_FACTORY_OPEN(ctx, repo, cache, open_only=False, do_open=True):
     for ci in (archive_classes(repo, PERSISTENT) if do_open else []):
         fi, outs, eng = cache.outs(ci, '__init__')
         bad = None
+        # inside the constructor the location is still the constructor's own first parameter (the state is being filled in)
+        ia = fi.node.args
+        loc = [x.arg for x in ia.args[1:2]]
+
+        def own(t, loc=loc):
+            return on_self_store(t) or contains_term(t, lambda x: x[0] == 'param' and x[1] in loc)
         for o in outs:
-            for e, c in effects(o):
+            for e, c in effects(o, own):
                 if c in ('write', 'remove', 'clearall', 'rename', 'openw'):
                     # guarded by EXISTS(...) == False on this path?
                     guarded = False
